@@ -59,7 +59,9 @@ VARIABLES pc, case, txt, out, obs
 
 None == [none |-> TRUE]
 ClsSites   == {"init.SetDeadline", "noreg.Read", "notransport.Read", "loop.Read", "transport.Wrap", "found.SetDeadline"}
-RelaySites == {"relay.Read", "relay.Write", "relay.CloseDst", "relay.CloseSrc", "relay.SetDeadline"}
+\* relay.ReadFull: the client Read that fills the 32 KiB relay buffer to the last byte AND fails in the same call (layered connections
+\* - obfs4, DTLS - deliver buffered data together with the error): the same call site as relay.Read, on the edge of its length guard
+RelaySites == {"relay.Read", "relay.ReadFull", "relay.Write", "relay.CloseDst", "relay.CloseSrc", "relay.SetDeadline"}
 \* registration ingest (pkg/station/lib/registration_ingest.go ingestRegistration): one site per way a message leaves
 \* the function.  Here the tainted datum is not an error text but the registration's registrant address field.
 IngestSites == {"ingest.drop-log-names-registrant",      \* covert == "" branch: "Dropping reg, malformed or blocklisted covert"
@@ -108,7 +110,7 @@ Sanitised(s) == IF s \in {"init.SetDeadline", "found.SetDeadline"} THEN ~RawDead
 \* the site's sink and whether it is visible at the default log level (Error)
 Sink(s) == CASE s \in {"init.SetDeadline", "found.SetDeadline", "noreg.Read", "notransport.Read", "loop.Read"} \cup PreSites -> "log.error"
              [] s = "transport.Wrap" -> "log.warn"
-             [] s \in {"relay.Read", "relay.Write", "relay.CloseDst", "relay.CloseSrc"} -> "stats"
+             [] s \in {"relay.Read", "relay.ReadFull", "relay.Write", "relay.CloseDst", "relay.CloseSrc"} -> "stats"
              [] s = "dial" -> "stats"
              [] s \in IngestSites -> "log.info"          \* Info is printed at every level
              [] OTHER -> "none"
